@@ -616,13 +616,12 @@ Qed.
 
 Lemma lwinv_wstep : forall v w call, lwinv w -> lwinv (fst (wstep v w call)).
 Proof.
-  intros v w [] I; simpl.
+  intros v w [] I; simpl; unfold w_add_input.
   - pose proof (P_add_node (w_g w) k nk need_state false false I) as I1.
     destruct (g_add_node (w_g w) k nk need_state false false). exact I1.
   - destruct (alist_get _ _); exact I.
   - exact I.
-  - pose proof (P_add_edge (w_g w) from END_ false false fields I) as I1.
-    destruct (g_add_edge (w_g w) from END_ false false fields). exact I1.
+  - destruct (alist_get _ _); exact I.
   - destruct (alist_get _ _); exact I.
   - apply lwinv_compile; assumption.
 Qed.
